@@ -134,7 +134,10 @@ class C15(object):
                          'solver_reused_after_search_of_a_block_with_these_names_exogenous.cases',
                          'two_cycle_inside_the_tolerance.cases',
                          'lag_of_a_lag_feedback.cases',
-                         'user_function_replaced_after_an_accepted_search.cases')
+                         'user_function_replaced_after_an_accepted_search.cases',
+                         'equation_that_cannot_be_evaluated.cases',
+                         'accepted.equations_evaluated_independently',
+                         'derived_variable_overflows.cases')
 
     def n_cases(self, tier):
         return 300 if tier == 'quick' else 20000
@@ -176,6 +179,28 @@ class C15(object):
             return {'kind': 'search', 'dyn': d, 'text': text, 'T': rng.choice([100, 200, 300]), 'loop_default_tolerance': False,
                     'coarse_step_tolerance': False, 'tol': 10 ** rng.uniform(-6, -3), 'reduction': rng.random() < 0.5,
                     'via_solve': (idx // 12) % 2 == 1, 'rules': [[a_, b1], [a_, b2]]}
+        if idx % 24 == 20:
+            # a derived-only variable that overflows to +/- infinity (no Python exception) while everything else settles
+            sgn = rng.choice(['', '-'])
+            text = 'bal = 0.5*LAG_bal + 1.0\nLAG_bal = bal(k-1)\nscaled = %sbal*1e308*1000.\nw = 0.5*w + bal\nbal(0) = 1.0\nMaxTime = 5' % sgn
+            d = {'rows': [], 'names': ['bal', 'scaled', 'w'], 'ics': {}, 'exo': None, 'deco': False,
+                 'kinds': ['derived_variable_overflows'], 'loop': None, 'near_cancel': None}
+            return {'kind': 'search', 'dyn': d, 'text': text, 'T': rng.choice([20, 60, 100]), 'loop_default_tolerance': False,
+                    'coarse_step_tolerance': False, 'tol': 10 ** rng.uniform(-6, -3), 'reduction': True,
+                    'via_solve': False, 'overflowing_derived': True}
+        if idx % 12 == 1:
+            # one equation can never be evaluated (a division by an exact zero) while everything else settles: no steady state can
+            # be reported, wherever that equation stands in the block
+            lines = ['g = 0.5*LAG_g + 2.5', 'LAG_g = g(k-1)', 'gap = g - g', 'cover = g/gap', 'w = 0.5*w + g']
+            rng.shuffle(lines)
+            if rng.random() < 0.5:
+                lines.insert(rng.randint(0, len(lines)), 't = k')
+            text = '\n'.join(lines) + '\ng(0) = 1.0\nMaxTime = 5'
+            d = {'rows': [], 'names': ['g', 'gap', 'cover', 'w'], 'ics': {}, 'exo': None, 'deco': False,
+                 'kinds': ['equation_that_cannot_be_evaluated'], 'loop': None, 'near_cancel': None}
+            return {'kind': 'search', 'dyn': d, 'text': text, 'T': rng.choice([20, 60, 100]), 'loop_default_tolerance': False,
+                    'coarse_step_tolerance': False, 'tol': 10 ** rng.uniform(-6, -3), 'reduction': rng.random() < 0.5,
+                    'via_solve': False, 'unevaluable': True}
         if idx % 12 == 6:
             # a lag of a lag feeding back: x[k] = c + lam*x[k-2].  lam = -1: a period-four cycle a,b,c-a,c-b whose values come in
             # equal pairs when a == b; lam = 0.5: a path that settles in pairs (0,20,20,30,30,35,...) stopped early
@@ -297,6 +322,10 @@ class C15(object):
             rec.count('two_cycle_inside_the_tolerance.cases')
         if case.get('lag_of_a_lag'):
             rec.count('lag_of_a_lag_feedback.cases')
+        if case.get('unevaluable'):
+            rec.count('equation_that_cannot_be_evaluated.cases')
+        if case.get('overflowing_derived'):
+            rec.count('derived_variable_overflows.cases')
         exo_names = [n for n, _ in s.Parser.Exogenous]
 
         def snap():
@@ -357,6 +386,30 @@ class C15(object):
         if outcome == 'accepted':
             nontrivial = True
             rec.count('accepted.judged')
+            # an accepted state must at least allow every equation of the block to be evaluated (independent evaluation: current
+            # and lagged values both taken from the installed state)
+            from vf.oracle import block as _B
+            import math as _math
+            blk_ = _B.split_block(case['text'])
+            env_ = {n_: s.TimeSeries[n_][0] for n_ in s.TimeSeries}
+            for ln_, src_ in blk_['lag']:
+                if src_ in env_:
+                    env_[ln_] = env_[src_]
+            genv_ = {k_: getattr(_math, k_) for k_ in dir(_math) if not k_.startswith('_')}
+            genv_.update({'__builtins__': {}, 'max': max, 'min': min, 'abs': abs, 'rule': s.Functions.get('rule')})
+            for n_, rhs_ in blk_['endo']:
+                rec.count('accepted.equations_evaluated_independently')
+                try:
+                    val_ = eval(rhs_, genv_, dict(env_))
+                except (ArithmeticError, ValueError) as e_:
+                    rec.violate('accepted_state_leaves_an_equation_that_cannot_be_evaluated',
+                                {'equation': '%s = %s' % (n_, rhs_), 'error': repr(e_), 'installed': {k_: env_[k_] for k_ in sorted(env_)[:8]},
+                                 'text': case['text']})
+                    break
+                except Exception:
+                    continue
+            if rec.violations:
+                return {'verdict': 'violated', 'shape': shape, 'counters': rec.counters, 'violations': rec.violations, 'nontrivial': True}
             s2 = copy.deepcopy(s)
             s2.TraceStep = None
             s2.MaxIterations = max(s2.MaxIterations, 5000)     # the further period is solved accurately, whatever it takes
